@@ -16,7 +16,7 @@ from .. import inproc
 from .. import session
 
 PROP = "C07"
-HEADER = "from inline_snapshot import snapshot, Is\nfrom vp import *\n\n"
+HEADER = "import pytest\nfrom inline_snapshot import snapshot, Is\nfrom vp import *\n\n"
 GOOD_EXOTIC = [
     "assert DC(a=1, b={x}) == snapshot(DC(a=1, b=snapshot({x})))",
     "assert NT(a=1, b={x}) == snapshot(NT(a=1, b=snapshot({x})))",
@@ -106,6 +106,12 @@ def make_test(rng, k):
                 lines.append("    " + cmp_line(op, "v", snapv, True))
             else:
                 lines.append(cmp_line(op, x, good_value(op, x), True))
+    # the call phase may end with an imperative skip/xfail: a bad snapshot executed before must still fail the test,
+    # a good test must only be reported as skipped/xfailed
+    r = rng.random()
+    if r < 0.12:
+        lines.append(rng.choice(["pytest.skip('enough')", "pytest.xfail('known problem')", "pytest.importorskip('module_which_does_not_exist')"]))
+        meta["ends_with"] = lines[-1].split("(")[0]
     src = f"def test_{k}():\n" + "\n".join("    " + ln for ln in lines) + "\n"
     return src, meta
 
@@ -162,12 +168,15 @@ def run_shard(args):
                 if m["bad"]:
                     any_bad = True
                     C["bad_tests"] += 1
-                    out["signatures"].add(f"{m['kind']}/{'+'.join(m['ops'])}/{m['pos']}/{'assert' if m.get('asserting') else 'ignored'}/{name}")
-                    if oc == "passed":
-                        out["violations"].append({"kind": "bad-snapshot-test-reported-passed", "detail": {"test": tname, "meta": m, "flagset": name, "source": _test_source(src, tname)}, "witness": wit, "finding": None})
+                    out["signatures"].add(f"{m['kind']}/{'+'.join(m['ops'])}/{m['pos']}/{'assert' if m.get('asserting') else 'ignored'}/{m.get('ends_with', 'return')}/{name}")
+                    if "failure" not in oc and "error" not in oc:
+                        # the statement asks for failed or errored: a bad test that is only reported as skipped/xfailed is green too
+                        out["violations"].append({"kind": "bad-snapshot-test-reported-passed" if oc == "passed" else "bad-snapshot-test-reported-" + oc, "detail": {"test": tname, "meta": m, "flagset": name, "outcome": oc, "source": _test_source(src, tname)}, "witness": wit, "finding": None})
                 else:
                     C["good_tests"] += 1
-                    if oc != "passed":
+                    if m.get("ends_with"):
+                        C["good_tests_ending_with_skip"] = C.get("good_tests_ending_with_skip", 0) + 1
+                    if oc != "passed" and not (m.get("ends_with") and oc == "skipped"):
                         out["violations"].append({"kind": "good-test-failed", "detail": {"test": tname, "meta": m, "flagset": name, "outcome": oc, "source": _test_source(src, tname)}, "witness": wit, "finding": None})
             if any_bad and r.exit == 0:
                 out["violations"].append({"kind": "exit-status-0-with-bad-snapshots", "detail": {"flagset": name, "stdout_tail": r.stdout[-500:]}, "witness": wit, "finding": None})
@@ -186,9 +195,11 @@ def run_shard(args):
                 C["inproc_tests"] += 1
                 out["evaluations"] += 1
                 failed = bool(miss or inc or raised)
+                if m["bad"] and m.get("ends_with"):
+                    failed = bool(miss or inc)  # the Skipped/XFailed exception of the body is not a failure
                 if m["bad"] and not failed:
                     out["violations"].append({"kind": "bad-snapshot-test-would-pass(in-process)", "detail": {"test": tname, "meta": m, "flags": list(F), "source": _test_source(src, tname)}, "witness": {"files": {"test_a.py": src}, "flags": list(F)}, "finding": None})
-                if not m["bad"] and failed:
+                if not m["bad"] and failed and not (m.get("ends_with") and not miss and not inc):
                     out["violations"].append({"kind": "good-test-would-fail(in-process)", "detail": {"test": tname, "meta": m, "flags": list(F), "counts": [miss, inc, raised], "source": _test_source(src, tname)}, "witness": {"files": {"test_a.py": src}, "flags": list(F)}, "finding": None})
     out["signatures"] = sorted(out["signatures"])
     return out
